@@ -76,6 +76,17 @@ def doOp (d : DSt) (op : Op) : DSt × String :=
 
 def listGet (l : List Nat) (i : Nat) : Nat := (l[i]?).getD 0
 
+/-- hkey / skey <storage|nonce|classHash> <addr hex32> <slot hex32 | -> <block decimal>: the history / scratch key bytes -/
+def keyBytes (scratch : Bool) (kind addr slot blk : String) : String :=
+  let kind? : Option Mig.HKind := match kind with
+    | "storage" => some .storage | "nonce" => some .nonce | "classHash" => some .classHash | _ => none
+  match kind?, hexToBytes? addr, hexToBytes? slot, nat? blk with
+  | some kd, some a, some sl, some b =>
+    let be : List UInt8 := (List.range 8).map fun i => UInt8.ofNat ((b >>> (8 * (7 - i))) % 256)
+    let key : Mig.HKey := ⟨kd, a, sl, be⟩
+    bytesToHex (if scratch then Mig.scratchKey key else Mig.historyKey key)
+  | _, _, _, _ => "bad-op"
+
 def stepLine (d : DSt) (line : String) : DSt × String :=
   match words line with
   | ["cfg", r, l, m, lg, fx, ms, mz] =>
@@ -93,18 +104,8 @@ def stepLine (d : DSt) (line : String) : DSt × String :=
     match nat? w with
     | some w => (d, if d.st.db.agg w then "1" else "0")
     | none => (d, "bad-op")
-  | [k, kind, addr, slot, blk] =>
-    -- hkey / skey <storage|nonce|classHash> <addr hex32> <slot hex32 | -> <block decimal>: the history / scratch key bytes
-    let kind? : Option Mig.HKind := match kind with
-      | "storage" => some .storage | "nonce" => some .nonce | "classHash" => some .classHash | _ => none
-    match kind?, hexToBytes? addr, hexToBytes? slot, nat? blk with
-    | some kd, some a, some sl, some b =>
-      let be : List UInt8 := (List.range 8).map fun i => UInt8.ofNat ((b >>> (8 * (7 - i))) % 256)
-      let key : Mig.HKey := ⟨kd, a, sl, be⟩
-      if k == "hkey" then (d, bytesToHex (Mig.historyKey key))
-      else if k == "skey" then (d, bytesToHex (Mig.scratchKey key))
-      else (d, "bad-op")
-    | _, _, _, _ => (d, "bad-op")
+  | ["hkey", kind, addr, slot, blk] => (d, keyBytes false kind addr slot blk)
+  | ["skey", kind, addr, slot, blk] => (d, keyBytes true kind addr slot blk)
   | ["store"] => doOp d .store
   | ["revert"] => doOp d .revert
   | ["writel1", n] => match u64? n with | some n => doOp d (.writeL1 n) | none => (d, "bad-op")
